@@ -2,7 +2,7 @@
    over the tables of the agent model, interleavings, the shared allocators, the SEID collision. *)
 From Coq Require Import String List Bool NArith Lia ZifyN ZifyNat ZifyBool.
 From UPF Require Import Model.IPPool Model.Fteid Model.PortRange Model.Agent Model.Locks
-     Proofs.IPPoolProofs Proofs.AgentProofs.
+     Proofs.FteidProofs Proofs.IPPoolProofs Proofs.AgentProofs.
 Import ListNotations.
 
 (* ------------------------------------------------------------------ lockset discipline *)
@@ -285,10 +285,10 @@ Proof. apply pdr_same_module. Qed.
 Section Sessions.
   Variable burst : N -> N -> N -> N.
 
-  Lemma session_cmd_cases ps fs qs s c : owned_by s fs qs -> In c (Locks.session_cmds burst ps fs qs) ->
+  Lemma session_cmd_cases ps fs qs s c : owned_by s fs qs -> In c (rule_cmds burst ps fs qs) ->
     (c_mod c = MPdr /\ In c (pdr_cmds ps)) \/ cmd_of_fseid c s.
   Proof.
-    intros [Of Oq] H. unfold Locks.session_cmds, add_cmds, del_cmds, pdr_cmds in *.
+    intros [Of Oq] H. unfold rule_cmds, add_cmds, del_cmds, pdr_cmds in *.
     rewrite !in_app_iff, !in_flat_map in H. rewrite in_app_iff, !in_flat_map.
     destruct H as [[(p & Ip & Ic)|[(f & If & Ic)|(q & Iq & Ic)]]|[(p & Ip & Ic)|[(f & If & Ic)|(q & Iq & Ic)]]].
     - left. split; [apply (pdr_cmds_mod p); apply in_or_app; left; exact Ic|left; exists p; tauto].
@@ -305,7 +305,7 @@ Section Sessions.
   (* sessions with different local SEIDs (and PDR match keys that differ) never address the same slot *)
   Lemma sessions_disjoint s1 s2 ps1 fs1 qs1 ps2 fs2 qs2 :
     s1 <> s2 -> owned_by s1 fs1 qs1 -> owned_by s2 fs2 qs2 -> keys_disjoint (pdr_cmds ps1) (pdr_cmds ps2) ->
-    keys_disjoint (Locks.session_cmds burst ps1 fs1 qs1) (Locks.session_cmds burst ps2 fs2 qs2).
+    keys_disjoint (rule_cmds burst ps1 fs1 qs1) (rule_cmds burst ps2 fs2 qs2).
   Proof.
     intros Hne O1 O2 Dp c1 c2 I1 I2.
     destruct (session_cmd_cases _ _ _ _ _ O1 I1) as [[M1 P1]|F1];
@@ -348,20 +348,18 @@ Proof.
   - assert (sa = sb) by (eapply (c06_exclusive base len p2); eassumption). subst. congruence.
 Qed.
 
-(* TEIDs: an identifier handed out was not in use; afterwards it is *)
-Lemma find_free_unused : forall fuel b off u o, find_free fuel b off u = Some (Some o) -> Fteid.mem o u = false.
+(* TEIDs: at every point of every interleaving of the atomic methods (= operation sequence from the fresh
+   generator) an identifier handed out was not in use, is non-zero, and is in use afterwards.  Built on C07's
+   lemmas (Proofs/FteidProofs.v). *)
+Lemma teid_fresh (threads : list (list Fteid.op)) sched g id g' : merge threads sched ->
+  g = fst (Fteid.run new_gen sched) -> allocate g = AOk id g' ->
+  is_allocated id g = false /\ is_allocated id g' = true /\ 1 <= id.
 Proof.
-  induction fuel as [|f IH]; intros b off u o H; cbn [find_free] in H; [discriminate|].
-  destruct (Fteid.mem off u) eqn:E.
-  - destruct (update_offset off =? b); [discriminate|]. eapply IH. exact H.
-  - inversion H; subst. exact E.
-Qed.
-Lemma teid_fresh g id g' : allocate g = AOk id g' -> is_allocated id g = false /\ is_allocated id g' = true /\ 1 <= id.
-Proof.
-  unfold allocate. destruct (find_free _ _ _ _) as [[o|]|] eqn:E; try discriminate.
-  intros H. inversion H; subst. unfold is_allocated, MINV. cbn [used].
-  assert (o + 1 <? 1 = false) as -> by lia. replace (o + 1 - 1) with o by lia.
-  split; [eapply find_free_unused; exact E|]. split; [|lia]. cbn [Fteid.mem existsb]. rewrite N.eqb_refl. reflexivity.
+  intros _ -> E. pose proof (wf_run sched new_gen wf_new) as [Hb _].
+  destruct (allocate_fresh _ _ _ Hb E) as ([H1 _] & Hn & Hu & _).
+  unfold is_allocated, MINV. assert (id <? 1 = false) as -> by lia. rewrite Hu.
+  split; [apply FteidProofs.mem_nIn; exact Hn|]. split; [|exact H1].
+  cbn [Fteid.mem existsb]. rewrite N.eqb_refl. reflexivity.
 Qed.
 
 (* ------------------------------------------------------------------ SEID collision (F32) *)
@@ -458,8 +456,8 @@ Section EstIsolated.
     inversion Hu; subst l'. destruct (est_accepted_tables burst _ _ _ _ _ _ _ _ _ _ _ _ _ _ _ _ _ _ H Hf) as [Hc Ht].
     pose proof (est_owned _ _ _ _ _ _ _ _ _ _ _ _ _ _ _ _ _ _ H Hf) as Ho.
     rewrite Ht, !tab_of_eq. apply apply_cmds_untouched. intros x Ix.
-    assert (In x (Locks.session_cmds burst (view (s_pdrs s)) (view (s_fars s)) (view (s_qers s)))) as Ix'.
-    { unfold Locks.session_cmds. apply in_or_app. left. rewrite <- Hc. exact Ix. }
+    assert (In x (rule_cmds burst (view (s_pdrs s)) (view (s_fars s)) (view (s_qers s)))) as Ix'.
+    { unfold rule_cmds. apply in_or_app. left. rewrite <- Hc. exact Ix. }
     destruct (session_cmd_cases burst _ _ _ _ _ Ho Ix') as [[Mx _]|Fx].
     - unfold hits. rewrite Mx. destruct Hs as [[-> _]|[[-> _]|[-> _]]]; reflexivity.
     - (* a pseudo command that sits in the slot (m, k) *)
